@@ -161,6 +161,8 @@ def noise(rng, maxlen=40):
         g += START[:rng.randint(1, 7)]
     elif t < 0.6:
         g += bytes([0x1b] * rng.randint(4, 9)) + bytes([1] * rng.randint(0, 3))
+    elif t < 0.68:
+        g += bytes([0x1b] * 4 + [0x1a]) + bytes(rng.getrandbits(8) for _ in range(rng.randint(0, 2)))     # unfinished end sequence
     return bytes(g)
 
 
@@ -176,8 +178,17 @@ def clean_noise(rng, maxlen=40):
 def bad_frame(rng, p):
     """a frame-like byte string that is NOT the canonical frame of any payload it could be read as,
     with the checksum recomputed for the manipulated framing"""
-    kind = rng.randrange(14)
+    kind = rng.randrange(15)
     body = START + esc(p)
+    if kind == 14:
+        # an escape sequence with an undefined first payload byte (02, 03, 04, ... anything but 1b / 01 / 1a) in the
+        # middle of an otherwise well-formed transmission, checksum computed over all transmitted bytes
+        cut = (rng.randint(0, len(p)) // 4) * 4
+        p1, p2 = p[:cut], p[cut:]
+        x = rng.choice([0x02, 0x03, 0x04, 0x05, 0x00, 0x1c, 0x7f, 0xff])
+        b2 = START + esc(p1) + bytes([0x1b] * 4 + [x] + [rng.choice([0, 0, rng.getrandbits(8)]) for _ in range(3)]) + esc(p2)
+        pd = (4 - len(b2) % 4) % 4
+        return end_seq(b2 + bytes(pd), pd)
     if kind == 13:
         # a payload ending in 1-3 0x1b with an aligned body (no padding): the end sequence follows the run directly
         # (1b^j 1b1b1b1b 1a 00 crc).  One 0x1b of the run/escape in front of 0x1a is overwritten, checksum recomputed
@@ -644,8 +655,22 @@ HUGE_TLFS = [tlf_bytes(7, 6, 256), tlf_bytes(7, 7, 257), tlf_bytes(0, 4 + 256, 2
 def mutate_message(rng, m):
     """mutate the pre-CRC chunks of a message; returns (new chunk list, description)"""
     ch = [bytes(c) for c in m["chunks"]]
-    kind = rng.randrange(14)
+    kind = rng.randrange(15)
     i = rng.randrange(len(ch))
+    if kind == 14:
+        # a one-byte unsigned (62 xx: choice tag of a time, group number, unit, ...) re-encoded in 2 / 3 / 4 data bytes:
+        # same number, wrong field type
+        cand = []
+        for j, c in enumerate(ch):
+            for pos in range(len(c) - 1):
+                if c[pos] == 0x62 and (pos == 0 or c[pos - 1] in (0x72, 0x62)) :
+                    cand.append((j, pos))
+        if cand:
+            j, pos = rng.choice(cand)
+            c = ch[j]
+            k = rng.choice([2, 3, 4])
+            ch[j] = c[:pos] + bytes([0x61 + k]) + bytes(k - 1) + c[pos + 1:pos + 2] + c[pos + 2:]
+        return ch, "widen-u8"
     if kind == 12:
         # a Time position filled with a bare unsigned of 1-3 data bytes plus filler so that a parser ignoring the
         # declared length (reading 4 bytes) stays in step: must be rejected
